@@ -2,7 +2,7 @@
 
 MC      MC_Present: Present.tla on itself (lexer total, Lex(Render(toks)) = toks, comments and
         parentheses do not change the items, ill-formedness = an independent count of live
-        quotes/parentheses); MC_Zone: Zone.tla on itself over ZoneShapes (35 line shapes x 8
+        quotes/parentheses); MC_Zone: Zone.tla on itself over ZoneShapes (42 line shapes x 8
         configurations): machine = fold, deterministic given the AMBIG policy, TTL/class order,
         all-explicit and all-omitted rewritings denote the same, canonical text of every line reads
         back as that line, $INCLUDE never changes the includer's origin, $GENERATE count, sticky error.
@@ -39,16 +39,19 @@ inherited) GEN noisy/minimal spellings + TV (zone/rr:ttl:last, :stated) -- the r
 files of the failing spelling, so the confirmation re-executes that parse; C06-3 (nested relative $INCLUDE resolved from the wrong
 directory) GEN "tree" through MapFS (zone/include:rdata: a decoy file's record) and on the os file system (zone/rejects:include).
 
+C06-4 (a relative name whose last octet is an escaped dot taken for absolute) GEN seq/idx, shapes 36/40/42 and the special-octet
+labels of record mode (zone/rr:owner, zone/include:owner, zone/generate:owner:plain); C06-5, C06-6 GEN + TV.
+
 Findings on the unchanged tree: known-findings.d/C06.txt.
 """
 import os, json, random, threading
 import vp
 
 CONSTS = {"SureDepth": 3, "MaxDepth": 64, "MaxGen": 65536}
-QUICK_SHAPES = "{1,2,3,6,7,13,16,19,22,24,26,32}"
-MID_SHAPES = "{1,2,3,4,5,6,7,9,11,13,14,16,17,19,21,22,24,26,27,29,32,34}"
-ALL_SHAPES = "{" + ",".join(str(i) for i in range(1, 36)) + "}"
-NSHAPES = 35
+QUICK_SHAPES = "{1,2,3,6,7,13,16,19,22,24,26,32,36,38,40}"
+MID_SHAPES = "{1,2,3,4,5,6,7,9,11,13,14,16,17,19,21,22,24,26,27,29,32,34,36,37,38,40,41}"
+NSHAPES = 42
+ALL_SHAPES = "{" + ",".join(str(i) for i in range(1, NSHAPES + 1)) + "}"
 
 
 def serialise_scratch(ctx):
@@ -100,6 +103,11 @@ QUIRKS = [
      "lines": [{"k": "include", "file": B("mx"), "origin": ref("omit")}], "text": B("$INCLUDE mx\n")},
     {"cfg": cfg(), "lines": [rr(ref("rel", "t"), 5, 16, txt=[B("x"), B("a")])], "text": B("t 5 TXT ( x ; c\n a )\n")},
     {"cfg": cfg(), "lines": [rr(ref("rel", "t"), 5, 16, txt=[B("x"), B("a")])], "text": B("t 5 TXT ( x\n a )\n")},   # (no comment: fine)
+    # an owner written only with escaped ; ( ) " \\ or blanks, on a line that follows a line ending in a blank or a comment
+    {"cfg": cfg(), "lines": [rr(ref("rel", "x"), 5, 1, ip=[10, 0, 0, 1]), rr(ref("rel", ";"), 5, 1, ip=[10, 0, 0, 2])],
+     "text": B("x 5 A 10.0.0.1 ;c\n\\; 5 A 10.0.0.2\n")},
+    {"cfg": cfg(), "lines": [rr(ref("rel", "x"), 5, 1, ip=[10, 0, 0, 1]), rr(ref("rel", ";"), 5, 1, ip=[10, 0, 0, 2])],
+     "text": B("x 5 A 10.0.0.1\n\\; 5 A 10.0.0.2\n")},     # (nothing after the rdata: fine)
 ]
 
 
@@ -199,13 +207,13 @@ def run(ctx):
         return lambda: spells.extend(gen_replay(ctx, binp, *a, **kw)[0])
     if ctx.quick:
         idx = [{"c": rnd.randrange(8), "q": [rnd.randrange(1, NSHAPES + 1) for _ in range(rnd.randrange(4, 8))]} for _ in range(150)]
-        sh3 = rnd.sample(range(512), 2)
+        sh3 = rnd.sample(range(1024), 2)
         vp.parallel([
             lambda: ctx.tlc("MC_Present", consts={"StrLen": 5, "OctLen": 3}, workers=3, timeout=900),
             lambda: ctx.tlc("MC_Zone", consts=dict(MaxLines=2, ShapeSet=QUICK_SHAPES, PolSet="{0, 15}"), workers=3, timeout=900),
-            G("seq", 2, 8, [ctx.seed % 8]),                 # 1/8 of the 8 x (1 + 35 + 35^2) sequences
-            G("seq", 3, 512, [sh3[0]]),                     # 2/512 of the 8 x 35^3
-            G("seq", 3, 512, [sh3[1]]),
+            G("seq", 2, 8, [ctx.seed % 8]),                 # 1/8 of the 8 x (1 + 42 + 42^2) sequences
+            G("seq", 3, 1024, [sh3[0]]),                    # 2/1024 of the 8 x 42^3
+            G("seq", 3, 1024, [sh3[1]]),
             G("idx", 0, 1, [0], cases=idx),                 # seeded random sequences of 4..7 lines
             G("gen", 0, 1, [0]),
             G("tree", 2, 1, [0]),                           # include trees with directories and decoys, FS and os file system
@@ -223,7 +231,7 @@ def run(ctx):
             G("gen", 0, 1, [0]), G("tree", 3, 1, [0]), G("file", 0, 1, [0], cases=QUIRKS),
         ]
         jobs += [G("seq", 2, 4, [k]) for k in range(4)]
-        jobs += [G("seq", 3, 32, [k]) for k in rnd.sample(range(32), 8)]      # 1/4 of the 8 x 35^3
+        jobs += [G("seq", 3, 32, [k]) for k in rnd.sample(range(32), 8)]      # 1/4 of the 8 x 42^3
         jobs += [G("idx", 0, 1, [0], cases=idx[k::4]) for k in range(4)]
         vp.parallel(jobs, maxpar=8)
         vp.parallel([lambda: spell_tv(ctx, spells, nchunks=8, cap=240000, rnd=rnd), lambda: record_tv(ctx, binp, 300, 6, par=6)])
